@@ -11,7 +11,7 @@
    last_check and of the levels); elp_optimal follows. *)
 From Coq Require Import List Arith NArith Bool Lia Permutation.
 From PrefVerif Require Import Lib.Val Lib.Contig Lib.Subsets Model.SP Model.Deletion Model.ELPDP
-                              Proofs.SP Proofs.Deletion Proofs.ELPDP Proofs.ELPComplete Proofs.ELPLevels.
+                              Proofs.SP Proofs.Deletion Proofs.ELPDP Proofs.ELPComplete Proofs.ELPLevels Model.MaxAxis Proofs.MaxAxis.
 Import ListNotations.
 
 (* ---------------------------------------------------------------------------------------------- *)
@@ -838,3 +838,50 @@ Proof.
       * right. exists j0, A0, Y0, i, X0, A''. repeat split; auto. lia.
 Qed.
 End Canon.
+
+(* ---------------------------------------------------------------------------------------------- *)
+(* 8. optimality                                                                                   *)
+
+Section Optimal.
+Variable pair_first : N -> N -> bool.
+Variable ext_order : list (list N) -> list (list N).
+Hypothesis Hext : forall l X, In X (ext_order l) <-> In X l.
+
+(* the axis found by the dynamic programme is at least as long as every list on which all votes are
+   single-peaked (a longest single-peaked axis over any subset of the alternatives) *)
+Theorem longest_axis_longest alts votes O : NoDup alts -> votes <> [] ->
+  (forall v, In v votes -> NoDup v /\ incl alts v) -> GoodL alts votes O ->
+  length O <= length (fst (longest_axis pair_first ext_order alts votes)).
+Proof.
+  intros Hnd Hvne Hv (G1 & G2 & G3).
+  assert (Hext1 : forall l X, In X (ext_order l) -> In X l) by (intros l X; apply Hext).
+  destruct (dp_dominates_runs alts votes Hnd Hv pair_first ext_order Hext1) as [D1 D2].
+  assert (Hc : completable votes pa_empty O).
+  { exists O. split; [apply Permutation_refl|]. intros v Hin. simpl. rewrite app_nil_r. now apply G3. }
+  destruct (canon alts votes Hnd Hv Hvne pair_first ext_order Hext (length O) 0 pa_empty [] O (Nat.le_refl _))
+    as [(j & A & Y & HR & Hl)|(j0 & A0 & Y0 & i & X & A' & HR & H1 & H2 & H3 & H4 & H5 & H6)].
+  - apply run0.
+  - exact Hc.
+  - exact G1.
+  - exact G2.
+  - intros u Hu. apply remP_in. split; [now apply G2|]. simpl. tauto.
+  - now left.
+  - intros a [].
+  - specialize (D1 j A Y HR). unfold pa_len in Hl. simpl in Hl. unfold pa_len in D1 at 1. lia.
+  - specialize (D2 j0 A0 Y0 i X A' HR H1 H2 H3 H4 H5). unfold pa_len in H6 at 2. simpl in H6. lia.
+Qed.
+
+(* Erdelyi-Lackner-Pfandler: k_alternative_deletion removes a minimum number of alternatives *)
+Theorem elp_optimal alts votes : NoDup alts -> votes <> [] -> (forall v, In v votes -> Permutation alts v) ->
+  length (snd (k_alternative_deletion pair_first ext_order alts votes)) = min_alt_del alts (map strictify votes).
+Proof.
+  intros Hnd Hvne Hp.
+  assert (Hext1 : forall l X, In X (ext_order l) -> In X l) by (intros l X; apply Hext).
+  assert (Hv : forall v, In v votes -> NoDup v /\ incl alts v) by (apply votes_wf; assumption).
+  pose proof (elp_bound pair_first ext_order Hext1 alts votes Hnd Hp) as Hlow.
+  destruct (optimum_good_list alts votes Hnd Hp) as (O & HO & HlenO).
+  pose proof (longest_axis_longest alts votes O Hnd Hvne Hv HO) as Hlong.
+  destruct (longest_axis_sound pair_first ext_order Hext1 alts votes Hnd Hv) as (_ & _ & Hperm & _).
+  unfold k_alternative_deletion in *. apply Permutation_length in Hperm. rewrite app_length in Hperm. lia.
+Qed.
+End Optimal.
